@@ -26,7 +26,7 @@ func c10Scenarios(tier string) []Scenario {
 	var out []Scenario
 	thorough := tier == "thorough"
 	add := func(s *ClientScenario, fam string) {
-		s.Rules = "R"
+		s.Rules = "RL"
 		s.Name = fmt.Sprintf("c10-%05d", len(out))
 		out = append(out, &clientScen{s: s, fam: fam + "-" + fam46(s.V6)})
 	}
@@ -40,7 +40,7 @@ func c10Scenarios(tier string) []Scenario {
 	for _, v6 := range []bool{false, true} {
 		// (1) one caller, every datagram stream of length <= seqLen over the full alphabet,
 		// arrival pattern: all at t=1 / spread 0,1,2,.. / all at the deadline
-		alpha := []DgSpec{{Kind: DgGood, ID: 0}, {Kind: DgBad, ID: 0}, {Kind: DgGood, ID: 1}, {Kind: DgWrongHW, ID: 0}, {Kind: DgRequestOp, ID: 0}, {Kind: DgGarbage}}
+		alpha := []DgSpec{{Kind: DgGood, ID: 0}, {Kind: DgBad, ID: 0}, {Kind: DgGood, ID: 1}, {Kind: DgWrongHW, ID: 0}, {Kind: DgRequestOp, ID: 0}, {Kind: DgOddOp, ID: 0}, {Kind: DgGarbage}}
 		for _, seq := range dgSequences(alpha, seqLen) {
 			for pat := 0; pat < 3; pat++ {
 				if len(seq) == 0 && pat > 0 {
@@ -151,6 +151,19 @@ func c10Scenarios(tier string) []Scenario {
 					add(&ClientScenario{V6: v6, T: 6, Tries: 1, BufCap: 1, CloseAt: -1, Bound: bound - 1,
 						Calls: []CallSpec{{ID: 0, Match: m, StartAt: start, CancelAt: -1, After: -1}}, Dgs: d}, "duplicates")
 				}
+			}
+		}
+		// (4c) a transmission fails: the id must stay usable and later traffic for it must not wedge anything
+		for _, burst := range []int{0, 1, 3, 7} {
+			for _, fw := range [][]int{{0}, {1}, {0, 1}} {
+				var d []DgSpec
+				for i := 0; i < burst; i++ {
+					d = append(d, DgSpec{At: 1, Kind: DgBad, ID: 0})
+				}
+				d = append(d, DgSpec{At: 8, Kind: DgGood, ID: 0}, DgSpec{At: 8, Kind: DgGood, ID: 1})
+				add(&ClientScenario{V6: v6, T: T, Tries: 2, BufCap: -1, CloseAt: -1, Bound: bound - 1, FailWrites: fw,
+					Calls: []CallSpec{{ID: 0, Match: MatchGood, CancelAt: -1, After: -1}, {ID: 0, Match: MatchGood, StartAt: 7, CancelAt: -1, After: 0},
+						{ID: 1, Match: MatchNil, StartAt: 7, CancelAt: -1, After: -1}}, Dgs: d}, "write-fault")
 			}
 		}
 		// (5) many callers: 4 (quick) / 5 (thorough) concurrent callers, two of them colliding
